@@ -200,7 +200,7 @@ def r01i(R):
 
 
 @rule('R07.d', ('C07', 'C01'), 'the power level sent is 65535 for on and 0 for '
-      'off', floor=2,
+      'off', floor=3,
       decides='on / off reach the device as full power and no power')
 def r07d(R):
     A = R.A
@@ -208,6 +208,9 @@ def r07d(R):
     for fname, expr in (('Registers.get_power', 'self.power'),
                         ('Machine._power_param', 'self._reg.power')):
         f = A.func(MACHINE, fname)
+        if f not in A.live_functions():
+            R.ok(f, '%s: not called from anywhere (dead code), not checked' % fname)
+            continue
         for truth, want in ((True, 65535), (False, 0)):
             try:
                 got = A.peval(f, {expr: truth})
@@ -346,8 +349,11 @@ def _swapped_args(A, modules):
     that other parameter's position holds a name that is a parameter too: the
     two were exchanged."""
     out, n_calls = [], 0
+    live = A.live_functions()
     for mod in modules:
         for f in A.repo.all_functions(mod):
+            if f not in live:
+                continue            # dead code breaks nothing
             for c in A.calls_in(f):
                 if c.keywords or any(isinstance(a, ast.Starred) for a in c.args):
                     continue
